@@ -29,10 +29,19 @@ Definition w_renamed_col : list gschange :=
   [mkGSC 0 [GModifyTable g_T [GAddColumn g_a]]; mkGSC 8 [GModifyTable g_T [GRenameColumn g_a g_b]];
    mkGSC 18 [GModifyTable g_T [GDropColumn g_b]]].
 
-Lemma renamed_flagged :
-  Analyze_g true w_renamed = GDone [mkGD GDS102 18 [g_u] 0] true true /\
-  Analyze_g true w_renamed_col = GDone [mkGD GDS103 18 [[98]%N] 0] true true.
+(** after fix C18-loadspans-rename both are clean; before it they were reported (DS102 "u" / DS103 "b") *)
+Lemma renamed_clean :
+  Analyze_g true w_renamed = GDone [] false false /\
+  Analyze_g true w_renamed_col = GDone [] false false.
 Proof. vm_compute. split; reflexivity. Qed.
+
+(** ... while a table / column that existed BEFORE the file, renamed and dropped under its new name, stays reported *)
+Definition w_renamed_pre : list gschange :=
+  [mkGSC 0 [GRenameTable g_T g_U]; mkGSC 8 [GModifyTable g_U [GRenameColumn g_a g_b]];
+   mkGSC 18 [GModifyTable g_U [GDropColumn g_b]]; mkGSC 30 [GDropTable g_U]].
+Lemma renamed_pre_reported :
+  Analyze_g true w_renamed_pre = GDone [mkGD GDS103 18 [[98]%N] 0; mkGD GDS102 30 [g_u] 0] true true.
+Proof. vm_compute. reflexivity. Qed.
 
 (** non-vacuity material *)
 Definition w_multi : list gschange :=
